@@ -49,7 +49,9 @@ class RequirementsTxtParser(BaseParser):
         that may be comments or may be pointers to other requirement files (-r ..._
         """
         return set(
-            line.split("#")[0].strip()
+            # a requirement may carry options and continue on the next lines:
+            # `package==1.0 \` followed by `    --hash=sha256:...`
+            line.split("#")[0].split(" --")[0].rstrip("\\").strip()
             for line in lines
-            if not line.startswith(("#", "-r "))
+            if not line.startswith(("#", "-r ")) and not line.strip().startswith("--")
         )
